@@ -29,6 +29,7 @@ static const size_t NOALLOC_MAX = 8192;
 
 struct Call {
     int thr, k, level;
+    const char *subject_name = nullptr;
     std::string expected_msg;
     uint64_t seq_invoke = 0, seq_return = 0;
     uint64_t real_invoke = 0, real_return = 0;
@@ -76,6 +77,29 @@ struct Ctx {
 };
 static Ctx *g = nullptr;
 
+// Subjects registered by the application (public API): names from 1 to 300 characters. Registered once per process.
+static const int kCustomLens[] = {1, 14, 40, 70, 80, 85, 88, 89, 90, 91, 94, 100, 113, 114, 120, 160, 300};
+static const int kNumCustom = (int)(sizeof kCustomLens / sizeof kCustomLens[0]);
+static const int kCustomPackage = 20; // a package slot no aws-c-* library uses here
+static struct aws_log_subject_info g_custom_info[sizeof kCustomLens / sizeof kCustomLens[0]];
+static struct aws_log_subject_info_list g_custom_list;
+static std::string g_custom_names[sizeof kCustomLens / sizeof kCustomLens[0]];
+void register_custom_subjects() {
+    static bool done = false;
+    if (done) return;
+    done = true;
+    for (int i = 0; i < kNumCustom; i++) {
+        g_custom_names[i] = std::string((size_t)kCustomLens[i], (char)('a' + i % 26));
+        if (kCustomLens[i] > 3) { g_custom_names[i][0] = 'S'; g_custom_names[i][(size_t)kCustomLens[i] - 1] = 'E'; }
+        g_custom_info[i].subject_id = (aws_log_subject_t)(AWS_LOG_SUBJECT_BEGIN_RANGE(kCustomPackage) + i);
+        g_custom_info[i].subject_name = g_custom_names[i].c_str();
+        g_custom_info[i].subject_description = "dsim custom subject";
+    }
+    g_custom_list.subject_list = g_custom_info;
+    g_custom_list.count = (size_t)kNumCustom;
+    aws_register_log_subject_info_list(&g_custom_list);
+}
+
 std::string iso8601(uint64_t real_ns) {
     time_t s = (time_t)(real_ns / 1000000000ull);
     struct tm tmv;
@@ -94,7 +118,8 @@ void check_line(Ctx &c, const std::string &line, int writer_tid) {
     if (line.empty() || line.back() != '\n') sim::violation("c14:newline", "line does not end in a newline: \"%.80s\"", line.c_str());
     if (line.find('\n') != line.size() - 1) sim::violation("c14:newline", "line contains an embedded newline (torn or merged lines)");
     if (memchr(line.data(), 0, line.size())) sim::violation("c14:nul", "line contains a NUL byte");
-    size_t sep = line.find(" - M");
+    size_t sep = line.find("] - M");
+    if (sep != std::string::npos) sep += 1;
     if (sep == std::string::npos) {
         // a line of the library's own (different subject); not produced by the workload
         sim::probe("foreign_line");
@@ -119,7 +144,7 @@ void check_line(Ctx &c, const std::string &line, int writer_tid) {
     std::string msg = line.substr(sep + 3, line.size() - sep - 4);
     std::string prefix = line.substr(0, sep + 3);
     bool ts_ok = false;
-    std::string want_tail = std::string("] [") + c.tid_repr[thr] + "] [" + c.subject_name + "] - ";
+    std::string want_tail = std::string("] [") + c.tid_repr[thr] + "] [" + (call.subject_name ? call.subject_name : c.subject_name) + "] - ";
     std::string want_head = std::string("[") + kLevel[call.level] + "] [";
     if (prefix.size() != want_head.size() + 20 + want_tail.size() || prefix.compare(0, want_head.size(), want_head) != 0 ||
         prefix.compare(want_head.size() + 20, std::string::npos, want_tail) != 0)
@@ -219,12 +244,18 @@ std::string make_body(uint64_t seed, size_t len) {
 void do_log(Ctx &c, int thr, int &k, const sim::Op &op) {
     int level = (int)(op.a % 6) + 1;
     int shape = (int)(op.b % 5);
+    // subject: general, I/O, or an id nobody registered (rendered as "Unknown")
+    static const aws_log_subject_t subjects[] = {AWS_LS_COMMON_GENERAL, AWS_LS_COMMON_IO, (aws_log_subject_t)(AWS_LS_COMMON_GENERAL + 900)};
+    int si = (int)((op.b / 5) % (3 + kNumCustom));
+    aws_log_subject_t subject = si < 3 ? subjects[si] : (aws_log_subject_t)(AWS_LOG_SUBJECT_BEGIN_RANGE(kCustomPackage) + (si - 3));
+    if (si >= 3) sim::probe("application_registered_subject");
     size_t len = (size_t)op.c;
     std::string body = make_body((uint64_t)op.d, len);
     k++;
     c.calls.emplace_back();
     Call &call = c.calls.back();
     call.thr = thr; call.k = k; call.level = level;
+    call.subject_name = aws_log_subject_name(subject);
     char head[64];
     snprintf(head, sizeof head, "M%d.%d|", thr, k);
     std::string full = std::string(head) + body;
@@ -242,11 +273,11 @@ void do_log(Ctx &c, int thr, int &k, const sim::Op &op) {
     sim::note(sim::PK_HARNESS, nullptr, 600 + level);
     std::string extra = body + "TRAILING-BYTES-NOT-TO-BE-PRINTED";
     switch (shape) {
-        case 0: AWS_LOGF((enum aws_log_level)level, AWS_LS_COMMON_GENERAL, "%s", full.c_str()); break;
-        case 1: AWS_LOGF((enum aws_log_level)level, AWS_LS_COMMON_GENERAL, "M%d.%d|%s", thr, k, body.c_str()); break;
-        case 2: AWS_LOGF((enum aws_log_level)level, AWS_LS_COMMON_GENERAL, "M%d.%d|%.*s", thr, k, (int)len, extra.c_str()); break;
-        case 3: AWS_LOGF((enum aws_log_level)level, AWS_LS_COMMON_GENERAL, "M%d.%d|%zu|%s", thr, k, len, body.c_str()); break;
-        case 4: AWS_LOGF((enum aws_log_level)level, AWS_LS_COMMON_GENERAL, "M%d.%d|100%%|%s", thr, k, body.c_str()); break;
+        case 0: AWS_LOGF((enum aws_log_level)level, subject, "%s", full.c_str()); break;
+        case 1: AWS_LOGF((enum aws_log_level)level, subject, "M%d.%d|%s", thr, k, body.c_str()); break;
+        case 2: AWS_LOGF((enum aws_log_level)level, subject, "M%d.%d|%.*s", thr, k, (int)len, extra.c_str()); break;
+        case 3: AWS_LOGF((enum aws_log_level)level, subject, "M%d.%d|%zu|%s", thr, k, len, body.c_str()); break;
+        case 4: AWS_LOGF((enum aws_log_level)level, subject, "M%d.%d|100%%|%s", thr, k, body.c_str()); break;
     }
     c.current[sim::self()] = nullptr;
     call.returned = true;
@@ -376,6 +407,7 @@ RunInfo run(const sim::Plan &plan) {
     c.model_level = (int)plan.get("init_level", 6) % 7;
     c.slow_permille = plan.get("slow_permille", 0);
     c.wr = sim::Rng(sim::mix64(plan.seed, 0x51077));
+    register_custom_subjects();
     c.subject_name = aws_log_subject_name(AWS_LS_COMMON_GENERAL);
     simfile::reset();
     for (const sim::Op &op : plan.ops) if (op.kind == OP_WRITER_FAIL) c.writer_fail_at.push_back(op.a);
@@ -525,7 +557,7 @@ void gen(uint64_t seed, int tier, sim::Plan &p) {
             op.thr = t;
             op.kind = OP_LOG;
             op.a = r.range(0, 5);
-            op.b = r.range(0, 4);
+            op.b = r.range(0, 4) + 5 * (r.chance(0.6) ? 0 : r.range(1, 2 + kNumCustom));
             uint64_t k = r.below(100);
             if (k < 10) op.c = 0;
             else if (k < 60) op.c = r.range(1, 80);
